@@ -76,7 +76,8 @@ func compareReport(r *ev.Run, cs map[string]any, level int, got, want map[string
 	for k, g := range got {
 		w, ok := want[k]
 		if !ok {
-			r.Infra(fmt.Sprintf("report field %s of the %s report is not covered by the harness table (reports.go): extend expectedReport", k, spec.LevelNames[level]))
+			// a field the property text cannot be applied to by name: recorded, not judged
+			r.Set("uncovered_report_field_"+spec.LevelNames[level]+"."+k, "not covered by the harness table (reports.go)")
 			continue
 		}
 		if !exact {
